@@ -96,7 +96,7 @@ def sh(cmd, timeout=None, cwd=None, mem_gb=8, inp=None):
         return -999, (so or b'').decode('utf8', 'replace'), 'TIMEOUT', time.time() - t0
 
 
-def sh_race(cmds, timeout=None, mem_gb=8):
+def sh_race(cmds, timeout=None, mem_gb=8, valid=None):
     """run several commands concurrently; first one to exit with output wins, the others are killed.
     returns (index, rc, stdout, stderr, seconds)"""
     import tempfile, signal
@@ -116,7 +116,7 @@ def sh_race(cmds, timeout=None, mem_gb=8):
                 fo.seek(0)
                 out = fo.read().decode('utf8', 'replace')
                 # a crashed/killed solver (rc not in 0,10) without results does not win
-                if rc in (0, 10) or all(q.poll() is not None for q, _, _ in procs):
+                if (rc in (0, 10) and (valid is None or valid(i, out))) or all(q.poll() is not None for q, _, _ in procs):
                     winner = (i, rc, out)
         if winner is not None:
             break
@@ -718,7 +718,13 @@ def run_contract_job(job):
             if be == 'sat':
                 # portfolio: cadical and minisat race (either can be pathologically slow on instances the other solves at once)
                 variants = ['cadical', 'minisat']
-                wi, rc, so, se, dt = sh_race([common + BACKEND_FLAGS[v] for v in variants], timeout=job['timeout'], mem_gb=job.get('mem_gb', 8))
+                if job.get('uf_float'):
+                    # uninterpreted-function abstraction in use: z3 decides congruence natively (a 4x4 element-wise product: 0.9 s against
+                    # 30-180 s for the Ackermann expansion in SAT); floats stay bit-vector encoded by CBMC, so the semantics is the same.
+                    # A z3 run that printed a solver/parse error never wins the race.
+                    variants = ['cadical', 'minisat', 'z3']
+                wi, rc, so, se, dt = sh_race([common + BACKEND_FLAGS[v] for v in variants], timeout=job['timeout'], mem_gb=job.get('mem_gb', 8),
+                                             valid=lambda i, o: not re.search(r'returned error|Parse Error|ignoring|unsupported|invariant', o))
                 be_used = 'sat:' + (variants[wi] if wi >= 0 else 'none')
                 cmd = common + (BACKEND_FLAGS[variants[wi]] if wi >= 0 else [])
             else:
